@@ -143,12 +143,16 @@ func runC01Chain(c *Ctx, a *pqAnchors) {
 					}
 					// not also guarded by an earlier index (nested else-if chain): fine
 					n++
-					okShut := false
-					if call, ok := strip(resultsOf(r)[0]).(*ssa.Call); ok && isFunc(calleeOf(call), pkgExperr, "NewShutdownErr") {
-						if ok2, _ := errChainReaches(call.Call.Args[0], isSrc(sendCalls, false), nil); ok2 {
-							okShut = true
+					// the returned error keeps a NewShutdownErr(last error) in its chain (directly or wrapped
+					// chain-preservingly: IsShutdownErr matches with errors.As)
+					okShut, _ := errChainReaches(resultsOf(r)[0], func(v ssa.Value) bool {
+						call, ok := v.(*ssa.Call)
+						if !ok || !isFunc(calleeOf(call), pkgExperr, "NewShutdownErr") {
+							return false
 						}
-					}
+						ok2, _ := errChainReaches(call.Call.Args[0], isSrc(sendCalls, false), nil)
+						return ok2
+					}, nil)
 					c.Check(okShut, "retry wait: stop-channel case returns a shutdown-classified error", p.Pos(r.Pos()), "returns experr.NewShutdownErr(err of the last attempt)", "a retry wait interrupted by shutdown does not return experr.NewShutdownErr(err): the persistent queue would delete the request")
 				}
 			}
